@@ -1161,7 +1161,12 @@ func (ctx *Context) evaluate() {
 				name, _ := stName.ReadString()
 				if stInfo.Op == "-" {
 					// 负号取正，以免-和-=出现符号一正一反的情况
-					stVal = stVal.OpNegation()
+					negated := stVal.OpNegation()
+					if negated == nil {
+						ctx.Error = fmt.Errorf("此类型无法使用一元算符 neg: %s", stVal.GetTypeName())
+						return
+					}
+					stVal = negated
 				}
 				e.Config.CallbackSt("mod", name, stVal.Clone(), nil, stInfo.Op, stInfo.Text)
 			}
